@@ -15,6 +15,8 @@ MODPROG = {
 #include "a.h"
 #include "b.h"
 #include <z.h>
+#include HDR(a)
+#include HDR(b)
 unsigned int u1; unsigned u2; long int l1; long l2; short int s1; short s2; signed int g1; signed g2;
 enum e1 { A, B, };
 enum e2 { C, D };
@@ -39,7 +41,9 @@ int f(int a, int b)
 }
 int g(int a) { if (a) { for (;;) { while (a--) { if (a) a++; } } } else a = 0; return (a); };
 """,
-    "CPP": """#include "b.h"
+    "CPP": """#include HDR(a)
+#include HDR(b)
+#include "b.h"
 #include "a.h"
 #include "b.h"
 using namespace z; using namespace a;
@@ -52,10 +56,23 @@ int lam2(int x) { auto f = [&](int y) { if (y) { return y; } return -y; }; throw
 unsigned int u1; unsigned u2; long int l1; long l2;
 enum E { A, B, };
 """,
-    "CS": """using Z; using A; using M;
+    "CS": """using Z; using A.B; using A; using M; using A.C;
 namespace N { class C { int F(int a) { if (a > 0) { return 1; } else return 2; } void G() { for (;;) { break; } ; } } }
 """,
-    "JAVA": """import z.Z; import a.A; import m.M;
+    "OC": """#import "b.h"
+#import "a.h"
+@interface A : NSObject
+@property () int z;
+@property (nonatomic, assign) int y;
+@property (readonly, getter=isX, nonatomic) BOOL x;
+@property int w;
+- (int)f:(int)a;
+@end
+@implementation A
+- (int)f:(int)a { if (a) { return 1; } else return 2; }
+@end
+""",
+    "JAVA": """import z.Z; import a.A; import a.B; import m.M; import a.b.C;
 class C { int f(int a) { if (a > 0) { return 1; } else return 2; } void g() { for (;;) { break; } ; while (true) { break; } }
   Runnable h() { return new Runnable() { public void run() { note(1); } }; } }
 """,
@@ -352,6 +369,14 @@ def run(ctx):
         for v in vals:
             for (p, lang) in progs:
                 jobs.append(("one|%s=%s|%s" % (o["name"], v, os.path.basename(p)), p, None, "%s=%s\n" % (o["name"], v), lang))
+    # the sorters with every pair of their modifiers (grouping runs a pass of its own over the sorted lines)
+    sorters = "mod_sort_include=true\nmod_sort_import=true\nmod_sort_using=true\n"
+    modifiers = [o["name"] for o in mo if o["kind"] == "bool" and (o["name"].startswith("mod_sort_") or o["name"] == "mod_remove_duplicate_include")
+                 and o["name"] not in ("mod_sort_include", "mod_sort_import", "mod_sort_using")]
+    for sub in [()] + [(m,) for m in modifiers] + list(itertools.combinations(modifiers, 2)):
+        for (p, lang) in progs:
+            if os.path.basename(p).startswith("modprog"):
+                jobs.append(("sort|%s|%s" % ("+".join(sub), os.path.basename(p)), p, None, sorters + "".join("%s=true\n" % m for m in sub), lang))
     for k in range(60 if quick else 600):
         sel = ctx.rng.sample(mo, ctx.rng.choice([2, 3, 5]))
         txt = "".join("%s=%s\n" % (o["name"], cfggen.value(ctx.rng, o)) for o in sel)
